@@ -198,7 +198,7 @@ public:
 
             // delete extra
             for (size_t i = 0; i < deleteCount; ++i)
-                m_data[copyCount + i].~T();
+                m_data[dataIndex(copyCount + i)].~T();
             free(m_data);
 
             m_data = newData;
